@@ -90,6 +90,52 @@ def lexOk (p : List PStmt) : Bool :=
   -- the text of a saved DO statement scans to the keyword + the expression's tokens (domain of `stmt_do_roundtrip`)
   ss.all (fun s => match s with | .doS e => tokensOf (unparseStmt 0 (.doS e) ++ [59]) == toksDo e | _ => true)
 
+/-! ### statement / program level (round C12-deepen): what `C12.stmt_roundtrip_flat`, `C12.print_roundtrip`,
+`C12.program_roundtrip_partial` and `C12.unparse_fixpoint_program` speak about, evaluated on every case -/
+
+/-- the saved BYTES of the whole program scan (C13 lexer model) to the token list the statement theorems are stated on -/
+def progToksOk (p : List PStmt) : Bool := tokensOf (unparseProgram p) == toksProgram p
+
+/-- the parser on `toksProgram p` gives `normP p` (statement of `program_roundtrip_partial`, evaluated for EVERY program,
+also those with blocks, which the theorem does not cover yet) -/
+def progRt (p : List PStmt) : Bool :=
+  let ts := toksProgram p
+  match pProgram (2 * ts.length + 50) ts with
+  | .ok q => reprStr q == reprStr (normP p)
+  | .error _ => false
+
+/-- every print / put list satisfies the explicit side condition of `print_roundtrip` -/
+def itemsOk (p : List PStmt) : Bool :=
+  (allStmts p).all fun s => match s with | .print a => itemsSep a | .put a => itemsSep a | _ => true
+
+/-- fixpoint / behaviour at program level (theorems for all programs; evaluated as a cross-check of the definitions) -/
+def progFix (p : List PStmt) : Bool :=
+  unparseProgram (normP p) == unparseProgram p && toksProgram (normP p) == toksProgram p
+
+partial def exprForms : PExpr → List String
+  | .int _ => ["int"] | .num _ => ["num"] | .str _ => ["str"] | .var _ => ["var"] | .kw _ => ["const"]
+  | .call _ a => "call" :: a.flatMap exprForms
+  | .fcall _ a => "fcall" :: a.flatMap exprForms
+  | .member e _ a => "member" :: (exprForms e ++ a.flatMap exprForms)
+  | .setm e _ a => "setm" :: (exprForms e ++ exprForms a)
+  | .item e _ => "item" :: exprForms e
+  | .un _ _ x => "un" :: exprForms x
+  | .bin _ _ a b => "bin" :: (exprForms a ++ exprForms b)
+
+def stmtForm : PStmt → String
+  | .nop => "nop" | .brk => "break" | .cont => "continue" | .trace _ => "trace" | .ret none => "return" | .ret (some _) => "returnv"
+  | .letS _ _ none => "let" | .letS _ _ (some _) => "letchain" | .letn _ _ none => "letn" | .letn _ _ (some _) => "letnchain"
+  | .print _ => "print" | .put _ => "put" | .doS _ => "do" | .raise _ => "raise" | .ifS _ none => "if" | .ifS _ (some _) => "ifelse"
+  | .whileS .. => "while" | .forS _ _ _ none _ _ => "for" | .forS _ _ _ (some _) _ _ => "forstep" | .forall .. => "forall"
+  | .begin _ [] => "begin" | .begin _ (_ :: _) => "beginexc" | .func .. => "function"
+
+/-- the distinct statement and expression forms of a program (for the evidence) -/
+def forms (p : List PStmt) : String :=
+  let ss := allStmts p
+  let fs := ss.map stmtForm ++ (ss.flatMap ownExprs).flatMap exprForms
+  let ds := fs.foldl (fun acc x => if acc.contains x then acc else acc ++ [x]) []
+  if ds.isEmpty then "-" else ",".intercalate ds
+
 def showRun (r : RunResult) : String :=
   let outc := match r.outcome with
     | .ok (some v) => "ok " ++ valStr v
@@ -116,7 +162,9 @@ def handleUnp (hex : String) : String :=
   | .error c => "model=" ++ errStr c
   | .ok p =>
     let t1 := unparseProgram p
-    let common := " wf=" ++ (if progWf p then "1" else "0") ++ " lex=" ++ (if lexOk p then "1" else "0")
+    let b := fun (x : Bool) => if x then "1" else "0"
+    let common := " wf=" ++ b (progWf p) ++ " lex=" ++ b (lexOk p) ++ " ptoks=" ++ b (progToksOk p) ++ " prt=" ++ b (progRt p) ++
+      " flat=" ++ b (wfFlatB p) ++ " isep=" ++ b (itemsOk p) ++ " pfix=" ++ b (progFix p) ++ " forms=" ++ forms p
     let kf := regions p
     let kfs := " kf=" ++ (if kf.isEmpty then "-" else ",".intercalate kf)
     match parseText t1 with
@@ -125,7 +173,7 @@ def handleUnp (hex : String) : String :=
       let t2 := unparseProgram p2
       let r1 := reprStr p
       let r2 := reprStr p2
-      let tree := if r1 == r2 then "same" else if reprStr (normBlock p) == r2 then "norm" else "diff"
+      let tree := if r1 == r2 then "same" else if reprStr (normP p) == r2 then "norm" else "diff"
       "model=txt=" ++ hexOfBytes t1 ++ " re=ok fix=" ++ (if t1 == t2 then "1" else "0") ++
         " txt2=" ++ (if t1 == t2 then "-" else hexOfBytes t2) ++ " tree=" ++ tree ++ common ++
         " beh=" ++ behaviour p p2 ++ kfs
